@@ -67,7 +67,7 @@ def _spec(prop, oracle, gname, build_expr, extra_params, extra_pre, K, fault, co
 
 def gen(prop, oracle, tier):
     quick = tier == "quick"
-    K = 2 if quick else 4
+    K = 2 if quick else 3
     big = 900 if quick else 3000
     faults_ok = oracle == "terminate"
     out = []
@@ -75,18 +75,18 @@ def gen(prop, oracle, tier):
     def add(gname, build, params, pre, nfault, note, Kx=None):
         for f in ([-1] + list(range(nfault))) if faults_ok else [-1]:
             kk = Kx or K
-            if quick:
+            if quick or kk <= 3:
                 out.append(_spec(prop, oracle, gname, build, params, pre, kk, f, big, note))
             else:
-                for first in range(6):  # thorough: partition on the first scheduling choice
+                for first in range(6):  # partition on the first scheduling choice
                     out.append(_spec(prop, oracle, gname, build, params, pre, kk, f, big, note, first=first))
 
-    add("chain", "g_chain(e, [v0])", ["v0: int"], [], 2, "in -> +1 -> *2 -> out", Kx=3 if quick else 5)
+    add("chain", "g_chain(e, [v0])", ["v0: int"], [], 2, "in -> +1 -> *2 -> out", Kx=3 if quick else 4)
     for n in (0, 1, 2) if quick else (0, 1, 2, 3):
         add(f"scatter_n{n}", f"g_scatter(e, [v0, v1, v2], {n})", ["v0: int", "v1: int", "v2: int"], [], 1, f"scatter a list of {n} -> +10 -> gather")
     for n in (1, 2):
         add(f"dot_n{n}", f"g_dot(e, [v0, v1, v2, v3], {n})", ["v0: int", "v1: int", "v2: int", "v3: int"], [], 1, f"two scattered lists of {n}, dot product, sum, gather")
-    add("cond", "g_cond(e, [v0])", ["v0: int"], [], 1, "conditional (v>0) with skip port", Kx=3 if quick else 5)
+    add("cond", "g_cond(e, [v0])", ["v0: int"], [], 1, "conditional (v>0) with skip port", Kx=3 if quick else 4)
     add("twoout", "g_two_outputs(e, [v0, v1])", ["v0: int", "v1: int"], [], 3, "two independent branches, two workflow outputs")
     for n, slots in ((1, 1), (2, 1), (2, 2)) if quick else ((1, 1), (2, 1), (2, 2), (3, 1), (3, 2)):
         add(
@@ -108,7 +108,7 @@ def gen(prop, oracle, tier):
             [],
             1,
             f"scatter {n} -> schedule -> execute on a location with {slots} slots -> gather; commands finish or fail IMMEDIATELY",
-            Kx=2 if quick else 4,
+            Kx=2 if quick else 3,
         )
     # hardware location: notifications contend for the scheduler lock while a release is being measured
     for n in () if quick else (2, 3):
@@ -119,7 +119,7 @@ def gen(prop, oracle, tier):
             ["0 <= d <= 16"],
             1,
             f"scatter {n} -> schedule -> execute on a location with 8 cores (1 core per job) -> gather; commands finish or fail immediately; measuring the released storage takes d (symbolic, 0..16) scheduling steps inside the scheduler's critical section",
-            Kx=1 if quick else 3,
+            Kx=1 if quick else 2,
         )
     # two-input transformer whose ports deliver the same tags in different orders
     add(
@@ -140,7 +140,7 @@ def gen(prop, oracle, tier):
             [],
             1,
             f"scatter a list of {n}, dot product with two non-scattered inputs, sum, gather",
-            Kx=2 if quick else 4,
+            Kx=2 if quick else 3,
         )
     return out
 
